@@ -14,7 +14,8 @@ CONSTANTS Depth,     \* number of calls per history
           Types,
           MaxUses,   \* variables a generated statement may read
           RawToo,    \* also generate unguarded statements / removals
-          SeedIds    \* which seed test cases objects start from
+          SeedIds,   \* which seed test cases objects start from
+          Subjects   \* objects the calls are made on
 
 VARIABLES obj, hist, init
 vars == <<obj, hist, init>>
@@ -39,10 +40,16 @@ Act(op, o, o2, i, R, s, seed) ==
 GoodStmts(t, pos) ==
   {[bv |-> b, uses |-> U, ty |-> ty, fresh |-> (b # NoVar)] :
       b \in {t.ctr, NoVar}, U \in Subsets(BoundBefore(t.st, pos + 1)), ty \in TyOpt}
+\* ... and statements a caller must not pass: an already bound name or one that next_var_name
+\* did not hand out, reads of variables that are not (yet) bound
+Lowest(U) == IF U = {} THEN {} ELSE {CHOOSE x \in U : \A y \in U : x <= y}
+Highest(U) == IF U = {} THEN {} ELSE {CHOOSE x \in U : \A y \in U : x >= y}
 BadStmts(t) ==
   IF RawToo
   THEN {[bv |-> b, uses |-> U, ty |-> ty, fresh |-> FALSE] :
-          b \in BoundVars(t.st) \cup {t.ctr + 1}, U \in Subsets(0..t.ctr), ty \in Types}
+          b \in Lowest(BoundVars(t.st)) \cup {t.ctr + 1},
+          U \in {{}, {t.ctr}} \cup {Highest(BoundVars(t.st))},
+          ty \in {CHOOSE x \in Types : TRUE}}
   ELSE {}
 AsStmt(s) == Stmt(s.bv, s.uses, s.ty)
 Prep(t, s) == IF s.fresh THEN AfterNextVar(t) ELSE t
@@ -84,7 +91,7 @@ Init == /\ obj \in [Objs -> {Seed(k) : k \in SeedIds}]
         /\ hist = <<>>
         /\ init = obj
 
-Next == Len(hist) < Depth /\ \E o \in Objs : Step(o)
+Next == Len(hist) < Depth /\ \E o \in Subjects : Step(o)
 Spec == Init /\ [][Next]_vars
 
 Small == \A o \in Objs : Len(obj[o].st) <= 7 /\ obj[o].ctr <= 9
